@@ -427,10 +427,14 @@ namespace details {
 			if(full_buffering_) {
 				buffer_size_ = size;
 				std::streamsize content_size = pptr() - pbase();
-				if(size_t(size) > output_.size())
+				// everything is kept in memory in this mode: the buffer may only grow,
+				// shrinking it below the pending content would drop data and leave
+				// the put pointer outside of the buffer
+				if(size_t(size) > output_.size()) {
 					output_.resize(size);
-				do_setp();
-				pbump(content_size);
+					setp(&output_[0],&output_[output_.size()-1]+1);
+					pbump(content_size);
+				}
 				return this;
 			}
 			return basic_device::setbuf(s,size);
